@@ -1,5 +1,5 @@
 \* (L) every loop step terminates, under weak fairness of the next-state relation
-CONSTANTS NI = 1  Counts = {0, 1, 2}  Outs = {"o1", "o2"}  Scatter = FALSE  Eager = FALSE
+CONSTANTS NI = 1  Counts = {0, 1, 2}  Outs = {"o1", "o2"}  Scatter = FALSE  IdxSet = {0}  Eager = FALSE
 SPECIFICATION FairSpec
 PROPERTY Termination
 INVARIANT I1
